@@ -41,6 +41,8 @@ type behaviour struct {
 	Op     string  `json:"op,omitempty"`      // fault mode: Set | Del | App
 	FailAt string  `json:"fail_at,omitempty"` // fault mode: "<store>.<Op>" whose first call fails once
 	Cached bool    `json:"cached,omitempty"`
+	Redis   bool   `json:"rd,omitempty"` // deploy mode: redis.enabled
+	Persist bool   `json:"ps,omitempty"` // deploy mode: persistence.enabled
 	Key    string  `json:"key,omitempty"` // tier mode: the exact key to classify (default: the category's sample key)  // fault mode: the old value is already in the front cache // generated from the model of the code before the per-key lock repair
 	Steps  []hstep `json:"steps"`
 }
@@ -199,6 +201,9 @@ func drive(env *fw.Env, b fw.Behaviour) *fw.Trace {
 	}
 	if beh.Mode == "xnode" {
 		return driveXNode(env, beh)
+	}
+	if beh.Mode == "deploy" {
+		return driveDeploy(beh)
 	}
 	if beh.Free {
 		return driveFree(env, beh)
@@ -444,6 +449,9 @@ func driveFault(beh behaviour) *fw.Trace {
 	if beh.Op == "App" {
 		init = []any{"e0"}
 	}
+	if beh.Op == "Rem" {
+		init = []any{"e0", "e7", "e8"} // the removed member is not the last: a filter must not disturb the others
+	}
 	if r.hasBack {
 		r.pers.Poke(r.key, init, 0)
 		if beh.Cached {
@@ -466,7 +474,7 @@ func driveFault(beh behaviour) *fw.Trace {
 		}
 	}
 	mode := "kv"
-	if beh.Op == "App" {
+	if beh.Op == "App" || beh.Op == "Rem" {
 		mode = "list"
 	}
 	t := &fw.Trace{Status: fw.Realised}
@@ -509,7 +517,7 @@ func driveXNode(env *fw.Env, beh behaviour) *fw.Trace {
 	b.h = hybrid.NewWithSharedCache(ctx, b.cache, a.shared, doubles.Pers{St: a.pers}, cfg)
 	b.front = a.shared
 	mode := "kv"
-	if beh.Op == "App" {
+	if beh.Op == "App" || beh.Op == "Rem" {
 		mode = "list"
 	}
 	t := &fw.Trace{Status: fw.Realised}
@@ -717,6 +725,7 @@ func main() {
 				j.Consts["FAULTPROC"] = "p1"
 				jobs = append(jobs, j)
 			}
+			jobs = append(jobs, fw.TLCJob{Name: "mc:deploy", Module: "HybridDeploy", Cfg: "HybridDeploy.cfg", Workers: 1})
 			return jobs
 		},
 		GenJobs: func(env *fw.Env) []fw.TLCJob {
@@ -778,7 +787,7 @@ func main() {
 				if c == "shared" || c == "sharedPersistent" {
 					front = "shared"
 				}
-				for _, op := range []string{"Set", "Del", "App"} {
+				for _, op := range []string{"Set", "Del", "App", "Rem"} {
 					fails := []string{front + ".Set", front + ".Delete", front + ".Get"}
 					if c == "persistent" || c == "sharedPersistent" {
 						fails = append(fails, "pers.Set", "pers.Delete", "pers.Get")
@@ -799,6 +808,12 @@ func main() {
 				out = append(out, fw.MustJSON(behaviour{Cat: c, Mode: "xnode", Op: "Set"}))
 				for i := 0; i < nx; i++ {
 					out = append(out, fw.MustJSON(behaviour{Cat: c, Mode: "xnode", Op: "App", Seed: i}))
+				}
+			}
+			// the store each deployment builds (real createStorage), two nodes per flag combination
+			for _, rd := range []bool{false, true} {
+				for _, ps := range []bool{false, true} {
+					out = append(out, fw.MustJSON(behaviour{Mode: "deploy", Redis: rd, Persist: ps}))
 				}
 			}
 			// every configured key prefix: the prefix itself as a whole key (several entries ARE whole keys,
